@@ -390,7 +390,7 @@ theorem linv_exec (cfg : Cfg) (cbs : List Nat) (evs : List TEv) (s : State)
 /-- the delay bookkeeping of every caller, relative to the clock of the state -/
 def GInv (s : State) : Prop := ∀ c, GhostOk s.clock (s.callers c)
 
-theorem ginv_step {log : Log} {s s' : State} (e : TEv) (hi : Inv log s) (hid : s.cfg.ident = []) (hg : GInv s)
+theorem ginv_step {s s' : State} (e : TEv) (hg : GInv s)
     (h : step s e = some s') : GInv s' := by
   have hclk : s.clock ≤ e.t := by
     unfold step at h; split at h
@@ -424,24 +424,22 @@ theorem ginv_step {log : Log} {s s' : State} (e : TEv) (hi : Inv log s) (hid : s
       rw [hclock]
       by_cases hcc : c = c0
       · subst hcc
-        exact step_ghost _ s' e.t c s.clock e.ev h hclk hid (hi.ni hid c) (hg c)
+        exact step_ghost _ s' e.t c s.clock e.ev h hclk (hg c)
       · rw [step_others _ s' e.t c0 e.ev h c hcc]
         exact ghost_mono (hg c) hclk ⟨rfl, rfl, rfl, rfl, rfl, rfl, rfl⟩ rfl rfl
 
-theorem ginv_exec_gen : ∀ (evs pre : List TEv) (s0 s : State), Inv pre s0 → s0.cfg.ident = [] → GInv s0 →
-    exec s0 evs = some s → GInv s
-  | [], _, s0, s, _, _, hv, h => by simp [exec] at h; subst h; exact hv
-  | e :: es, pre, s0, s, hi, hid, hv, h => by
+theorem ginv_exec_gen : ∀ (evs : List TEv) (s0 s : State), GInv s0 → exec s0 evs = some s → GInv s
+  | [], s0, s, hv, h => by simp [exec] at h; subst h; exact hv
+  | e :: es, s0, s, hv, h => by
     simp only [exec] at h
     cases hst : step s0 e with
     | none => simp [hst] at h
     | some s1 =>
       simp only [hst] at h
-      exact ginv_exec_gen es (pre ++ [e]) s1 s (inv_step e hi hst) (by rw [step_keeps_cfg hst]; exact hid)
-        (ginv_step e hi hid hv hst) h
+      exact ginv_exec_gen es s1 s (ginv_step e hv hst) h
 
-theorem ginv_exec (cfg : Cfg) (cbs : List Nat) (evs : List TEv) (s : State) (hid : cfg.ident = [])
+theorem ginv_exec (cfg : Cfg) (cbs : List Nat) (evs : List TEv) (s : State)
     (h : exec { cfg := cfg, cbsReg := cbs } evs = some s) : GInv s :=
-  ginv_exec_gen evs [] _ s (inv_init cfg cbs) hid (fun _ => ghost_dead _ _ (Or.inr (Or.inr (Or.inr rfl)))) h
+  ginv_exec_gen evs _ s (fun _ => ghost_dead _ _ (Or.inr (Or.inr (Or.inr rfl)))) h
 
 end Frappy.Comm
